@@ -340,6 +340,18 @@ def c03(tier, seed):
             steps = [s for s in steps if s.get("do") != "final"]
         out.append({"name": f"C03-{mode}-{k}", "family": mode, "seed": seed * 31 + k, "frag": 64, "steps": steps,
                     "max_steps": 6000000})
+    # the LAST sequence number handed out is not in the history (a back-dated write that is expired when written) while an
+    # older sample is still there and not delivered: the wait has to wait for the older one
+    for k, (life, nback, mid) in enumerate([(30000, 1, False), (30000, 2, False), (5000, 1, True)]):
+        steps = setup(q(hist=0, lifespan_ms=life), [q(hist=0)]) + [{"do": "sleep", "ms": life + 1500}, {"do": "write", "w": 0, "i": 1, "len": 8},
+                                                                 {"do": "sleep", "ms": 300}, {"do": "take", "r": 0},
+                                                                 {"do": "partition", "from_part": 0, "to_part": 1},
+                                                                 {"do": "write", "w": 0, "i": 1, "len": 8}]
+        if mid:
+            steps += [{"do": "write", "w": 0, "i": 2, "len": 8}]
+        steps += [{"do": "write", "w": 0, "i": 1, "len": 8, "ts_ms": 100 * (j + 1)} for j in range(nback)]
+        steps += [{"do": "wait_acks", "w": 0, "ms": 600}] + finish(1)
+        out.append({"name": f"C03-expiredlast-{k}", "family": "expiredlast", "seed": seed * 31 + k, "frag": 1344, "steps": steps, "max_steps": 6000000})
     return out + rich_scenarios("C03", tier, seed, n_quick=25, n_thorough=400)
 
 
@@ -727,6 +739,20 @@ def c30(tier, seed):
             steps.append({"do": "offered_deadline_status", "w": 0})
         steps.append({"do": "final"})
         out.append({"name": f"C30-refused-{k}", "family": "refused", "seed": seed * 61 + k, "frag": 1344, "steps": steps})
+    # instance operations between writes that keep arriving within the period: unregister, register_instance, dispose and
+    # writing on must not produce a miss (no instance is silent for a period) - the writer keeps one deadline clock per instance
+    for k, ops in enumerate([["unregister", "register"], ["unregister"], ["dispose"], ["register"], ["unregister", "register", "unregister", "register"]]):
+        D = 1000
+        wstep = {"do": "create_writer", "part": 0, "qos": q(hist=0, deadline_ms=D), "listener": ["OfferedDeadlineMissed"]}
+        rstep = {"do": "create_reader", "part": 1, "qos": q(hist=0, deadline_ms=D)}
+        steps = [{"do": "participant"}, {"do": "participant"}, wstep, rstep, {"do": "wait_match", "w": 0, "n": 1},
+                 {"do": "write", "w": 0, "i": 1, "len": 8}, {"do": "sleep", "ms": 100}]
+        for o in ops:
+            steps += [{"do": o, "w": 0, "i": 1, "len": 8}, {"do": "sleep", "ms": 50}]
+        for j in range(30):
+            steps += [{"do": "write", "w": 0, "i": 1, "len": 8}, {"do": "sleep", "ms": 100}]
+        steps += [{"do": "offered_deadline_status", "w": 0}, {"do": "final"}]
+        out.append({"name": f"C30-instops-{k}", "family": "instops", "seed": seed * 67 + k, "frag": 1344, "steps": steps})
     return out
 
 
